@@ -287,5 +287,10 @@ func (c *Collector) evictStale() {
 			keys = append(keys, key)
 		}
 	}
+	// Only the counters which are not updated in the current minute are halved,
+	// so the descending order must be restored.
+	sort.SliceStable(keys, func(i, j int) bool {
+		return keys[i].Counter.Value() > keys[j].Counter.Value()
+	})
 	c.keys = keys
 }
